@@ -1,6 +1,7 @@
 (* props/C20.v - C20: the optimiser terminates normally and does the work requested. *)
 From Coq Require Import ZArith NArith List Bool Reals Floats.
 From PV Require Import Num NumR model.Optimiser model.OptSpec proofs.OptStruct proofs.OptLoop proofs.OptConv proofs.FloatFacts proofs.RealFacts.
+From PV Require Import model.Cli gen.GenCli proofs.CliFacts.
 
 Theorem C20_work_bounds :
   forall (NN : Num) (c : cfg NN), (work NN c <= steps NN c)%N /\ (inner NN c <> 0%N -> (steps NN
@@ -81,4 +82,12 @@ Theorem C20_converged_is_finished :
     (advance NN fexp score c st d).
 Proof. exact OptConv.advance_conv_fin. Qed.
 Print Assumptions C20_converged_is_finished.
+
+
+Theorem C20_cli_stage1_built :
+  forall (NN : Num) (fpow : carrier NN -> carrier NN -> carrier NN) (i : N) (u : sbuilder NN),
+    let c := build NN fpow (sb NN (stage_settings NN (gen_stages NN) 0 i u)) in steps NN c =
+    1000%N /\ inner NN c = N.min (b_inner NN (sb NN u)) 1000 /\ conv NN c = None.
+Proof. exact cli_stage1_built. Qed.
+Print Assumptions C20_cli_stage1_built.
 
